@@ -423,6 +423,27 @@ def bf_min_lae(inst, budget=200000):
     return "infeasible" if best is None else best
 
 
+def double_diamond_instance(rng, cls):
+    """s -> {a1,a2} -> m -> {b1,b2} -> t with lengths: two constraints through a1 whose edges are all long (both edges needed),
+    and one constraint (s,a2),(a2,m),(m,b),(b,t) whose two short first edges are not needed for the length fraction: the path
+    that satisfies it need not cover them, so a third path has to"""
+    L = rng.choice([8, 10, 12])
+    b = rng.choice(["b1", "b2"]); other = "b2" if b == "b1" else "b1"
+    ln = {("s", "a1"): 1, ("s", "a2"): 1, ("a1", "m"): L, ("a2", "m"): 1, ("m", "b1"): L, ("m", "b2"): L,
+          ("b1", "t"): 1, ("b2", "t"): 1}
+    ln[(b, "t")] = L
+    edges = list(ln); rng.shuffle(edges)
+    nodes = sorted({x for e in edges for x in e}); rng.shuffle(nodes)
+    cons = [[["a1", "m"], ["m", "b1"]], [["a1", "m"], ["m", "b2"]], [["s", "a2"], ["a2", "m"], ["m", b], [b, "t"]]]
+    rng.shuffle(cons)
+    inst = {"cls": cls, "nodes": nodes, "edges": [list(e) for e in edges], "origin": "edge", "weight_type": "int",
+            "constraints": cons, "coverage": "1", "coverage_length": rng.choice(["4/5", "3/4"]),
+            "lengths": [[u, v, str(ln[(u, v)])] for (u, v) in edges], "ignore": [], "starts": [], "ends": [], "options": {}}
+    if cls in models.HAS_K:
+        inst["k"] = rng.choice([2, 3])
+    return inst
+
+
 def tiny(inst):
     return len(inst["edges"]) <= 6 and inst.get("weight_type") == "int"
 
@@ -916,6 +937,9 @@ def run(ctx):
                 if "flow" in inst and any(frac(x[2]).denominator != 1 for x in inst["flow"]):
                     continue
             k5_bruteforce(ctx, inst)
+    for cls in ("kPathCover", "MinPathCover"):
+        for it in range(ctx.n(2, 12)):
+            k5_bruteforce(ctx, double_diamond_instance(rng, cls), suite="K5.bruteforce.length_coverage")
     for cls in models.ALL_CLASSES:
         for it in range(ctx.n(4, 40)):
             k5_constraint_monotone(ctx, c10_instance(rng, cls, constraints=True))
